@@ -374,6 +374,18 @@ func c01Pairing(p *Prog, c *Check, rule string) {
 	c.Analysed(shortFn(compute))
 	cfi := p.Info(compute)
 	lib := callsTo(compute, "shcrypto.ComputeEpochSecretKey")
+	if len(lib) == 0 {
+		c.Fail(rule, "ComputeEpochSecretKey:call", p.Rel(compute.Pos()), shortFn(compute), "key computation", "the aggregator does not compute the key by the trusted shcrypto.ComputeEpochSecretKey(indices, shares, threshold) on its two parallel lists (interpolation assembled from other pieces — cached coefficients, reordered lists — is not recognised as pairing index i with share i)")
+		return
+	}
+	// the result returned is that call's
+	for _, r := range returnsOf(compute) {
+		if cfi.errIsNil(r.Results[1], r, 0) == no {
+			continue
+		}
+		okR := ParsePat("ComputeEpochSecretKey(...)#0").Match(cfi.T(r.Results[0]), Binds{})
+		c.Result(okR, rule, "ComputeEpochSecretKey:returned@"+retKey(cfi, r), p.siteOf(r), shortFn(compute), "key returned by the aggregator", "the key returned is not the result of shcrypto.ComputeEpochSecretKey: "+cfi.T(r.Results[0]).s, "ComputeEpochSecretKey(...)#0")
+	}
 	c.Floor(rule, len(lib), 1)
 	for i, ci := range lib {
 		key := fmt.Sprintf("ComputeEpochSecretKey#%d", i+1)
